@@ -172,6 +172,9 @@ Fixpoint nested_remove (m : amap) (path : list string) : amap :=
 
 Definition string_of_Z (z : Z) : string := NilZero.string_of_int (Z.to_int z).
 
+Fixpoint first_some {A} (f : A -> option string) (l : list A) : option string :=
+  match l with [] => None | a :: l' => match f a with Some s => Some s | None => first_some f l' end end.
+
 (* Custom induction principle (nested through list). *)
 Section JsonInd.
   Variable P : json -> Prop.
